@@ -17,6 +17,7 @@ EXPLANATION = (
     "with ',' and None when empty; (4) validate_options rejects csp together with a content-type "
     "option and the Csp arm of parse adds FROM_DOCUMENT."
     " Later additions: csp rules that differ only by tag are not de-duplicated anywhere between parser and store (C01.7, C01.9); the caller's tag set is re-applied after every load (C07.4); the matching loop of get_csp_directives visits every rule (no truncating adapter, no break)."
+    ' Round 6: no cell-typed field of Blocker can remember a fact about the csp list (C06.1 borrowed).'
 )
 NOT_DECIDED = "Which csp rules match a concrete request (C01-C03); the order of directives is unspecified by the property."
 
@@ -31,6 +32,10 @@ def check(run):
         run.guard("C15.3.set-algebra", cfg, lambda: rule_sets(run, F, cfg))
         run.guard("C15.3.set-algebra", cfg + "/merge", lambda: rule_merge(run, F, cfg))
         run.guard("C15.4.parse-guard", cfg, lambda: rule_parse(run, F, cfg))
+        from . import C06 as _C06
+        bim = run.borrow("C06", why="the policy is a function of the rules currently stored: a fact about the csp list "
+                                    "remembered in a cell would survive add_filter / a load and suppress exceptions")
+        run.guard("C15.via.C06.1.interior-mutability", cfg, lambda: _C06.rule_im(bim, F, cfg))
         b = run.borrow("C01", why="a multi-domain $csp rule must be stored under every one of its domain tokens")
         run.guard("C15.via.C01.1.token-source", cfg, lambda: _C01.rule_store(b, F, cfg))
         bi = run.borrow("C01", why="csp rules / exceptions that differ only by their tag are different rules (not de-duplicated)")
